@@ -100,10 +100,14 @@ Definition eval_item (env : envmap) (l : side) (o : str) (r : side) : eres :=
 
 (* _evaluate_markers: groups = [[]]; an item or nested list appends its value to the last group; "or" opens a group;
    result any(all(g) for g in groups).  [cur] = all() of the open group, [acc] = any() over the closed groups.
-   Every element is evaluated (no short circuit), the first exception propagates. *)
-Fixpoint eval_e (env : envmap) (e : elem) {struct e} : eres :=
+   Every element is evaluated (no short circuit), the first exception propagates.
+   [evi] is the value of one item (under the environment at hand); keeping it a parameter lets the grouping theorems
+   speak about every valuation of the items. *)
+Section Groups.
+Variable evi : side -> str -> side -> eres.
+Fixpoint geval_e (e : elem) {struct e} : eres :=
   match e with
-  | Item l o r => eval_item env l o r
+  | Item l o r => evi l o r
   | Nested m =>
       (fix go (m : list elem) (cur acc : bool) {struct m} : eres :=
          match m with
@@ -112,19 +116,23 @@ Fixpoint eval_e (env : envmap) (e : elem) {struct e} : eres :=
              if str_eqb w w_or then go t true (acc || cur)
              else if str_eqb w w_and then go t cur acc
              else ECrash                                                (* assert marker in ["and", "or"] *)
-         | x :: t => match eval_e env x with EBool b => go t (cur && b) acc | err => err end
+         | x :: t => match geval_e x with EBool b => go t (cur && b) acc | err => err end
          end) m true false
   | BoolOp _ => ECrash
   end.
-Fixpoint eval_go (env : envmap) (m : list elem) (cur acc : bool) {struct m} : eres :=
+Fixpoint geval_go (m : list elem) (cur acc : bool) {struct m} : eres :=
   match m with
   | [] => EBool (acc || cur)
   | BoolOp w :: t =>
-      if str_eqb w w_or then eval_go env t true (acc || cur)
-      else if str_eqb w w_and then eval_go env t cur acc
+      if str_eqb w w_or then geval_go t true (acc || cur)
+      else if str_eqb w w_and then geval_go t cur acc
       else ECrash
-  | x :: t => match eval_e env x with EBool b => eval_go env t (cur && b) acc | err => err end
+  | x :: t => match geval_e x with EBool b => geval_go t (cur && b) acc | err => err end
   end.
+Definition geval_markers (m : list elem) : eres := geval_go m true false.
+End Groups.
+Definition eval_e (env : envmap) : elem -> eres := geval_e (eval_item env).
+Definition eval_go (env : envmap) : list elem -> bool -> bool -> eres := geval_go (eval_item env).
 Definition eval_markers (env : envmap) (m : list elem) : eres := eval_go env m true false.
 
 Definition evaluate (m : list elem) (defaults : list (str * str)) (ov : option envmap) : eres :=
